@@ -49,7 +49,19 @@ impl ClassBody {
         let mut fields = vec![];
 
         for member in features {
-            let ty = ClassFeature::type_from_node(&member)?;
+            let member_span = member.as_span();
+            let ty: Ident = ClassFeature::type_from_node(&member)?;
+
+            // a field and a method (or two of either) with one name would share one slot of the
+            // object, while member lookup would find whichever was declared first
+            if fields.iter().any(|known: &Ident| known.name() == ty.name()) {
+                return Err(new_err(
+                    member_span,
+                    &input.user_data().get_source_file_name(),
+                    format!("this class already has a member named `{}`", ty.name()),
+                ));
+            }
+
             fields.push(ty);
         }
 
